@@ -179,6 +179,24 @@ def r6_step_count(ctx):
                     p = getattr(p, "_parent", None)
                 if has_step and outer:
                     loops.append(n)
+        whiles = []
+        for n in walk_no_nested(fn):
+            if isinstance(n, ast.While) and any(isinstance(c, ast.Call) and isinstance(c.func, ast.Attribute) and c.func.attr in ("_step", "step", "_solve_nonlinear_system", "append")
+                                                for c in ast.walk(n)):
+                p = getattr(n, "_parent", None)
+                outer = True
+                while p is not None and p is not fn:
+                    if isinstance(p, (ast.For, ast.While)):
+                        outer = False
+                    p = getattr(p, "_parent", None)
+                if outer:
+                    whiles.append(n)
+        if whiles and not loops:
+            w = whiles[0]
+            rep.bad("C20.R6", C, w.test, f"the time-step loop is `while {norm_src(w.test)[:60]}`: the number of steps is decided by comparing an ACCUMULATED floating-point time with the final time "
+                    "instead of by the shared grid (time_grid): for a final time that is a decimal multiple of dt the running sum can land one ulp below it (0.1 * 8 = 0.7999999999999999) and "
+                    "one step too many is taken, so the grid does not end at the first point at or after t1", f"{rel}:{w.lineno}")
+            continue
         if len(loops) != 1:
             raise AnalysisError(f"{C}: expected exactly one outer time-step loop, found {len(loops)}")
         loop = loops[0]
@@ -666,4 +684,9 @@ MUTANTS += [
 MUTANTS += [
     dict(id="c20-r11-seed", canary=True, what="[seeded by sub-agent] load_solution memoised with lru_cache", file=SOLN,
          old="def load_solution(", new="from functools import lru_cache\n\n\n@lru_cache(maxsize=8)\ndef load_solution(", expect="C20.R11"),
+]
+
+MUTANTS += [
+    dict(id="c20-r6-while", canary=True, what="[seeded by sub-agent] DualStormerVerlet steps `while self.tn < self.t1` (accumulated float time decides the number of steps)", file='cardillo/solver/dual_stormer_verlet.py',
+         old='        self.pbar = tqdm(time_grid(self.t0, self.t1, self.dt)[:-1])\n        for _ in self.pbar:\n            self._step()\n', new='        self.pbar = tqdm(total=len(time_grid(self.tn, self.t1, self.dt)) - 1)\n        while self.tn < self.t1:\n            self._step()\n            self.pbar.update()\n        self.pbar.close()\n', expect="C20.R6"),
 ]
